@@ -41,8 +41,10 @@ class C21(Prop):
                   'returns that success after exactly that many sleeps (induction on the list). The model is tied to the real code by '
                   'comparing the three classifiers on real exception objects (aiohttp, OSError errnos, hailtop classes, chained), the '
                   'loop outcome / number of calls / every requested sleep of the real retry functions, and delay_ms_for_try.')
-    level_note = ('The classification table (status codes, errnos with their Linux numbers, message substrings, tries <= 5) is the code\'s '
-                  'definition of "transient"; the model copies it and the correspondence is what detects an edit. Branches for aiodocker, '
+    level_note = ('The classification table (status codes, errnos, message substrings, tries <= 5) of the current code is the definition of '
+                  '"transient"; the Lean model copies it, and a Python twin of the model\'s table (harness-side reference classifiers, '
+                  'independent of the code under test) is what the oracle judges the real classifiers and the real loop against, so an '
+                  'edit of a classifier yields a failing exception object. Branches for aiodocker, '
                   'urllib3, requests and botocore classes are absent from the model: those libraries are inert stubs here and no exception '
                   'is an instance of their classes. The feature vector handed to the model is computed by the harness from the real '
                   'exception object (isinstance / attribute reads).')
@@ -147,6 +149,58 @@ class C21(Prop):
              b(isinstance(e, ConnectionRefusedError))]
         os_ = self.describe(e.os_error) if isinstance(e, a.ClientConnectorError) else 'N'
         return '[' + ','.join(str(int(x)) for x in f) + '|' + os_ + '|' + self.describe(e.__cause__) + ']'
+
+    # ---- the reference classification (independent of the code under test) ---------------------------
+    # A Python twin of the table of lean/HailVerif/Model/Retry.lean (the documented classes of the current code), evaluated on the
+    # real exception object.  The oracle uses THIS as the definition of limited / rate-limit / transient, so that an edit of a
+    # classifier in the code shows up as a failing exception object and not only as a model mismatch.
+    REF_STATUSES = {408, 429, 500, 502, 503, 504}
+    REF_ERRNOS = {errno.EADDRNOTAVAIL, errno.ETIMEDOUT, errno.ECONNREFUSED, errno.EHOSTUNREACH, errno.ECONNRESET,
+                  errno.ENETUNREACH, errno.EPIPE}
+
+    def ref_limited(self, e):
+        if e is None:
+            return False
+        if isinstance(e, self.hx.ClientResponseError):
+            return e.status == 400 and any(m in e.body for m in RETRY_ONCE_MSGS)
+        if isinstance(e, (ConnectionResetError, ConnectionRefusedError)):
+            return True
+        return self.ref_limited(e.__cause__)
+
+    def ref_rate_limit(self, e):
+        if isinstance(e, self.aiohttp.ClientResponseError) and e.status == 429:
+            return True
+        return isinstance(e, self.hx.ClientResponseError) and (e.status == 429 or (e.status == 403 and 'rateLimitExceeded' in e.body))
+
+    def ref_transient(self, e):
+        a = self.aiohttp
+        if e is None:
+            return False
+        if isinstance(e, a.ClientResponseError) and e.status in self.REF_STATUSES:
+            return True
+        if isinstance(e, self.gcp.GCPOperationError) and e.error_codes is not None and 'QUOTA_EXCEEDED' in e.error_codes:
+            return True
+        if isinstance(e, self.hx.ClientResponseError) and (e.status in self.REF_STATUSES
+                                                            or (e.status == 403 and 'rateLimitExceeded' in e.body)):
+            return True
+        if isinstance(e, (a.ServerTimeoutError, a.ServerDisconnectedError, asyncio.TimeoutError)):
+            return True
+        if isinstance(e, a.ClientConnectorError) and self.ref_transient(e.os_error):
+            return True
+        if isinstance(e, a.ClientPayloadError) and 'Response payload is not completed' in e.args[0]:
+            return True
+        if isinstance(e, a.ClientOSError) and e.strerror and 'sslv3 alert bad record mac' in e.strerror:
+            return True
+        if isinstance(e, OSError) and e.errno in self.REF_ERRNOS:
+            return True
+        if isinstance(e, socket.gaierror) and e.errno in (socket.EAI_AGAIN, socket.EAI_NONAME):
+            return True
+        if isinstance(e, self.U.TransientError):
+            return True
+        return self.ref_transient(e.__cause__)          # only an explicit `raise … from` chain is followed
+
+    def ref_classes(self, e):
+        return (self.ref_limited(e), self.ref_rate_limit(e), self.ref_transient(e))
 
     # ---- generation ----------------------------------------------------------------------------
     STATUSES = [200, 400, 403, 404, 408, 429, 499, 500, 501, 502, 503, 504]
@@ -347,7 +401,15 @@ class C21(Prop):
         if out and out[0].startswith('IMPL-EXC'):
             return out[0]
         if c['k'] == 'classify':
-            return None          # the classification table is the code's definition; only the correspondence speaks about it
+            e = self.build(c['exc'])
+            ref = self.ref_classes(e)
+            got = tuple(x == '1' for x in (tok.split('=')[1] for tok in out[0].split(' ')))
+            if got != ref:
+                names = ('limited-retry', 'rate-limit', 'transient')
+                diff = '; '.join(f"{n}: code says {'yes' if g else 'no'}, reference says {'yes' if r else 'no'}"
+                                 for n, g, r in zip(names, got, ref) if g != r)
+                return f"classification: {json.dumps(c['exc'])} — {diff}"
+            return None
         if c['k'] == 'delay':
             d = int(out[0])
             lo, hi = self._bounds(c['tries'], c['base'], c['max'])
@@ -358,7 +420,7 @@ class C21(Prop):
         head, calls_s, sleeps_s = out[0].rsplit(' ', 2)
         calls = int(calls_s.split('=')[1])
         sleeps = [int(x) for x in sleeps_s.split('=')[1].split(',') if x != '']
-        # what the contract demands, walking the script with the code's own classifiers
+        # what the contract demands, walking the script with the REFERENCE classification
         want = None
         retries = 0
         for k, att in enumerate(c['script'], start=1):
@@ -366,7 +428,7 @@ class C21(Prop):
                 want = (f'ret {att[1]}', k, retries)
                 break
             e = self.build(att[1])
-            lim, rate, tr = U.is_limited_retries_error(e), U.is_rate_limit_error(e), U.is_transient_error(e)
+            lim, rate, tr = self.ref_classes(e)
             if tr or rate or (lim and k <= 5):
                 retries += 1
                 continue
